@@ -1,5 +1,6 @@
 """Synchronisation rules: atomic-site extraction, lock-guard liveness, R-ATOM (non-atomic
 check-then-act), R-LOCKCOV (operations that must happen under a named lock), R-ABA."""
+import re
 from collections import defaultdict
 
 from vlib.mir import Fn, op_local, op_place, op_const, rv_operands, place_fields
@@ -385,3 +386,113 @@ def aba_push_tags(ctx, fns, rule="R-ABA.push"):
                               "%s is popped under a version tag but this compare_exchange installs a new head without "
                               "advancing the tag" % fld, fn.file, c["ln"])
     return n
+
+
+# ---------------------------------------------------------------- R-LOCKORDER
+LOCK_CALLS = {"lock": "w", "write": "w", "read": "r", "lock_arc": "w", "upgradable_read": "w"}
+
+
+def lock_sites(fn):
+    """[(block, lock field, mode, guard local|None, line)] for blocking acquisitions in fn"""
+    out = []
+    for b, c in fn.calls():
+        last = c["f"].rsplit("::", 1)[-1]
+        if last not in LOCK_CALLS or not c["a"]:
+            continue
+        if not re.search(r"Mutex|RwLock|SpinLock|FutexMutex|FutexRwLock", c["f"]):
+            continue
+        fld = recv_field(fn, c["a"][0])
+        if not fld or "::" not in fld:
+            continue
+        out.append((b, fld, LOCK_CALLS[last], c["d"][0], c["ln"]))
+    return out
+
+
+def _guard_modes(fn, guards):
+    """guard local -> mode of the acquisition it came from"""
+    modes = {}
+    for g in guards:
+        locs, sites = fn.backslice([g])
+        for loc, kind, pl in sites:
+            if kind == "call" and pl["f"].rsplit("::", 1)[-1] in LOCK_CALLS and re.search(r"Mutex|RwLock", pl["f"]):
+                modes[g] = LOCK_CALLS[pl["f"].rsplit("::", 1)[-1]]
+    return modes
+
+
+def lock_order(ctx, fx, file, rule="R-LOCKORDER", self_ty_filter=None):
+    """lock-order graph of the functions of `file`: an edge A->B means some path acquires B while a
+    guard of A is live (directly or through a callee). A cycle whose hold/request modes conflict at
+    every lock is a possible deadlock."""
+    import re as _re
+    fns = {}
+    for fid in fx.fn_ids(file):
+        if "::tests::" in fid:
+            continue
+        rec = fx.raw(fid)
+        if self_ty_filter and not _re.search(self_ty_filter, rec["self_ty"] or fid):
+            continue
+        fns[fid] = Fn(rec)
+    direct = {fid: lock_sites(fn) for fid, fn in fns.items()}
+    # transitive acquire sets (lock, mode)
+    acq = {fid: {(l, m) for _, l, m, _, _ in sites} for fid, sites in direct.items()}
+    changed = True
+    while changed:
+        changed = False
+        for fid, fn in fns.items():
+            for b, c in fn.calls():
+                if c["f"] in acq and c["f"] != fid:
+                    new = acq[c["f"]] - acq[fid]
+                    if new:
+                        acq[fid] |= new
+                        changed = True
+    edges = {}   # (A, B) -> list of (held mode, requested mode, fn, line)
+    nacq = 0
+    for fid, fn in fns.items():
+        guards = guard_locals(fn)
+        gm = _guard_modes(fn, guards)
+        for b, l2, m2, g2, line in direct[fid]:
+            nacq += 1
+            live = guards_live_at(fn, term_loc(fn, b), guards)
+            for g, l1 in live.items():
+                if l1 and l1 != l2:
+                    edges.setdefault((l1, l2), []).append((gm.get(g, "w"), m2, fid, line))
+        for b, c in fn.calls():
+            if c["f"] in acq and c["f"] != fid:
+                live = guards_live_at(fn, term_loc(fn, b), guards)
+                for g, l1 in live.items():
+                    if not l1:
+                        continue
+                    for l2, m2 in acq[c["f"]]:
+                        if l1 != l2:
+                            edges.setdefault((l1, l2), []).append((gm.get(g, "w"), m2, fid + " -> " + c["f"].rsplit("::", 1)[-1], c["ln"]))
+    ctx.instance(rule + ".acquisitions", nacq)
+    ctx.instance(rule + ".order_edges", len(edges))
+
+    def conflict(a, b):
+        return not (a == "r" and b == "r")
+    reported = set()
+    locks = sorted({x for e in edges for x in e})
+    for a in locks:
+        for b in locks:
+            if a >= b or (a, b) not in edges or (b, a) not in edges:
+                continue
+            for h1, r2, f1, ln1 in edges[(a, b)]:
+                for h2, r1, f2, ln2 in edges[(b, a)]:
+                    # T1 holds a (h1) wants b (r2); T2 holds b (h2) wants a (r1)
+                    if conflict(h1, r1) and conflict(h2, r2):
+                        key = (a, b)
+                        if key in reported:
+                            continue
+                        reported.add(key)
+                        ctx.obligation(rule, file, "%s <-> %s" % (a.rsplit("::", 1)[-1], b.rsplit("::", 1)[-1]), False,
+                                       sample={"lock_a": a, "lock_b": b, "path1": "%s (line %s) holds a[%s] takes b[%s]" % (f1, ln1, h1, r2),
+                                               "path2": "%s (line %s) holds b[%s] takes a[%s]" % (f2, ln2, h2, r1)})
+                        ctx.violation(rule, f1.split(" -> ")[0], "lock order %s <-> %s" % (a.rsplit("::", 1)[-1], b.rsplit("::", 1)[-1]),
+                                      "%s acquires %s while holding %s (line %s) but %s acquires %s while holding %s (line %s): two "
+                                      "threads on these paths block each other forever"
+                                      % (f1.rsplit("::", 1)[-1], b.rsplit("::", 1)[-1], a.rsplit("::", 1)[-1], ln1,
+                                         f2.rsplit("::", 1)[-1], a.rsplit("::", 1)[-1], b.rsplit("::", 1)[-1], ln2), file, ln1)
+    for (a, b), es in sorted(edges.items()):
+        if (b, a) not in edges:
+            ctx.obligation(rule, file, "%s -> %s" % (a.rsplit("::", 1)[-1], b.rsplit("::", 1)[-1]), True, nontrivial=True)
+    return edges
